@@ -111,15 +111,23 @@ def run_property(pid, spec: PropertySpec, tier, seed, t0):
         lean_res = leanmod.run(spec.lean, pid)
         lean_s = time.time() - tl
         gen = leanmod.LAST_GEN
-        used_text = "\n".join((ROOT / "lean" / f).read_text() for f in spec.lean if not f.startswith("@")) + ("\n" + gen.get("range_text", "") if "@range" in spec.lean else "")
+        lean_extra = {"extraction_drops": {k: v for k, v in gen.get("dropped", {}).items() if v}, "not_translatable": gen.get("errors", [])}
+        # theorems are tagged with the properties they belong to (comment line above the statement); a proof file shared by several
+        # properties contributes to each check only the theorems of that property (untagged helper lemmas count for all)
+        lean_res = [o for o in lean_res if relevant(pid, o["name"], True)]
+        gen = leanmod.LAST_GEN
+        rel_text = "\n".join(o.get("statement", "") + " " + o["name"] for o in lean_res) + ("\n" + gen.get("range_text", "") if "@range" in spec.lean else "")
         for d in gen.get("index", []):
-            if not re.search(r"\b" + re.escape(d["def"]) + r"\b", used_text):
+            if not re.search(r"\b" + re.escape(d["def"]) + r"\b", rel_text):
                 continue
             fuc.setdefault(d["function"], {"qualname": d["function"], "file": "src/aspire/" + d["function"].split(":")[0].replace(".", "/") + ".py",
                                            "lines": d["lines"], "source_hash": d["source_hash"], "shapes": 0, "paths": 0, "returned_paths": 0,
                                            "lean_definitions": []}).setdefault("lean_definitions", []).append(d["def"])
-        lean_extra = {"extraction_drops": {k: v for k, v in gen.get("dropped", {}).items() if v}, "not_translatable": gen.get("errors", [])}
         for e in gen.get("errors", []):
+            # a definition that could not be generated only matters to the properties whose theorems mention it
+            defs = e.get("defs", [])
+            if defs and not any(re.search(r"(?<![A-Za-z0-9_'.])" + re.escape(d) + r"(?![A-Za-z0-9_'])", rel_text) for d in defs):
+                continue
             undecided.append((e["function"], "not-translatable", e["error"]))
         for o in lean_res:
             all_obl.append(dict(o, label="lean"))
